@@ -25,6 +25,23 @@
 EXTENDS WindowRef      \* (Integers, Min2, Max2; the trace spec needs the aligned window as well)
 
 Cold(cfg)  == IF cfg.c <= 1 THEN 3 ELSE cfg.c             \* config.DefaultWarmUpColdFactor
+\* ---- the statistic interval of the rule (cfg.si ms; StatIntervalInMs 0 = the default statistic, 1000 ms) ----
+\* The threshold of a flow rule is a count per STATISTIC WINDOW of si ms (rule.go: "Threshold means the threshold during
+\* StatIntervalInMs"): the reject checker compares the tokens of that window with the effective threshold, the throttling
+\* checker spaces by si / threshold.  The warm-up calculator however keeps working in seconds: it synchronises once per
+\* aligned second, refills threshold tokens per elapsed second and drains the previous-window QPS (tokens of the previous
+\* window * 1000 / si, a rate per SECOND).  The envelope of C11 for such a rule, clause by clause: E1 the tokens of a
+\* statistic window never exceed the threshold; E2 in the first second after a long idle period (or the load) a window
+\* holds no more than about threshold/coldFactor; E3 after sustained demand (every statistic window refuses something) for
+\* the warm-up period a window is filled up to the threshold; E4 / finite as before.  "Long idle" covers the window itself
+\* (the previous-window QPS must have gone to zero before the bucket is refilled above the warning line).
+Si(cfg)  == IF cfg.si > 0 THEN cfg.si ELSE 1000
+WinSecs(cfg) == IF Si(cfg) > 1000 THEN (Si(cfg) + 999) \div 1000 ELSE 1        \* seconds a window spans
+\* rule_manager.generateStatFor: 500 ms buckets where the window is a whole number of them (up to the 10 s of the global
+\* statistic), otherwise a single bucket as long as the window
+BucketLen(cfg) == IF Si(cfg) % 500 = 0 /\ Si(cfg) <= 10000 THEN 500 ELSE Si(cfg)
+\* previous-window QPS as a rational (per second)
+Qps(cfg, tokens) == [n |-> tokens * 1000, d |-> Si(cfg)]
 \* NewWarmUpTrafficShapingCalculator
 Warn(cfg)  == (cfg.p * cfg.tn) \div (cfg.td * (Cold(cfg) - 1))                  \* uint64(period * T / (cold - 1))
 MaxTok(cfg) == Warn(cfg) + (2 * cfg.p * cfg.tn) \div (cfg.td * (Cold(cfg) + 1)) \* + uint64(2 * period * T / (1 + cold))
@@ -38,15 +55,19 @@ ColdLimit(cfg) == (cfg.tn \div cfg.td) \div Cold(cfg)
 \* coolDownTokens: `gap' = whole seconds since the last sync (< 0: never synced - lastFilledTime is 0 and the
 \* elapsed time is the absolute clock, which refills to the cap whenever T > 0)
 Refill(cfg, gap) == IF gap < 0 THEN (IF cfg.tn > 0 THEN MaxTok(cfg) + 1 ELSE 0) ELSE (gap * cfg.tn) \div cfg.td
-CoolDown(cfg, old, gap, prev) ==
+\* (q = previous-window QPS, a rational: the code compares the float and subtracts int64(q))
+CoolDownQ(cfg, old, gap, q) ==
     LET new == IF old < Warn(cfg) THEN old + Refill(cfg, gap)
                \* at or above the warning line (the line itself included since fix 704a566): only while the previous QPS
                \* is below the cold limit
-               ELSE IF prev < ColdLimit(cfg) THEN old + Refill(cfg, gap)
+               ELSE IF q.n < ColdLimit(cfg) * q.d THEN old + Refill(cfg, gap)
                ELSE old
     IN  Min2(new, MaxTok(cfg))
 \* syncToken, executed by the first request of an aligned second: new stored tokens
-Sync(cfg, old, gap, prev) == Max2(0, CoolDown(cfg, old, gap, prev) - prev)
+SyncQ(cfg, old, gap, q) == Max2(0, CoolDownQ(cfg, old, gap, q) - (q.n \div q.d))
+\* (the default window: QPS = tokens of the previous second)
+CoolDown(cfg, old, gap, prev) == CoolDownQ(cfg, old, gap, [n |-> prev, d |-> 1])
+Sync(cfg, old, gap, prev) == SyncQ(cfg, old, gap, [n |-> prev, d |-> 1])
 
 \* CalculateAllowedTokens after the sync: the effective threshold as a rational
 WarnZone(cfg, stored) ==
@@ -94,9 +115,12 @@ PaceSlack == 2
 GapCap    == 5000000                       \* (32-bit integers: gaps are capped before they are multiplied; 1/T <= 4 s)
 Within(cfg, gap) == (Min2(gap, GapCap) - PaceSlack) * cfg.tn < 1000000 * cfg.td      \* gap < 1/T (+ slack)
 NotAfter(cfg, gap) == (Min2(gap, GapCap) - PaceSlack) * cfg.tn <= 1000000 * cfg.td   \* gap <= 1/T (+ slack)
-IdleEnough(cfg) == 2 * cfg.p + 2                 \* idle seconds after which the resource counts as cold again
+\* idle seconds after which the resource counts as cold again (a window longer than a second must have emptied first)
+IdleEnough(cfg) == 2 * cfg.p + 2 + (IF Si(cfg) > 1000 THEN WinSecs(cfg) ELSE 0)
 WarmEnough(cfg) == 2 * cfg.p + 2                 \* saturated seconds after which the full threshold must be reached (see notes: integer tokens)
-StarveBound(cfg) == 2 * cfg.p + 5                \* consecutive seconds of unserved single-token demand that count as "forever"
+\* consecutive seconds of unserved single-token demand that count as "forever" (a window longer than a second that holds its
+\* threshold legitimately refuses until it has moved on: threshold 1 per 10 s serves one request in ten seconds)
+StarveBound(cfg) == 2 * cfg.p + 5 + (IF Si(cfg) > 1000 THEN WinSecs(cfg) ELSE 0)
 
 \* ---- a rule REPLACED under traffic (flow.LoadRules with a changed threshold / period / cold factor) ----
 \* The statement speaks of "the configured threshold" and of the resource having been idle; a reload changes the
@@ -131,5 +155,9 @@ Degenerate(cfg)   == ~SlopeDefined(cfg)                                         
 ColdBelowOne(cfg) == /\ SlopeDefined(cfg) /\ Warn(cfg) > 0
                      /\ cfg.tn >= cfg.td /\ cfg.tn < cfg.td * Cold(cfg)           \* 1 <= T but cold rate T/cold < 1 token
 NeverCold(cfg)    == SlopeDefined(cfg) /\ Warn(cfg) = 0                          \* warningToken = 0 < maxToken
-Healthy(cfg)      == ~Degenerate(cfg) /\ ~ColdBelowOne(cfg) /\ ~NeverCold(cfg)
+\* LongWindow: a statistic window longer than a second.  The cold rate (T/cold per window) is a previous QPS of
+\* (T/cold) * 1000/si < uint32(T)/cold per second, so above the warning line the bucket is refilled (T tokens per second)
+\* faster than it is drained: the rule never warms up (WarmAfterSat).  Found by the lead run.
+LongWindow(cfg)   == SlopeDefined(cfg) /\ Si(cfg) > 1000
+Healthy(cfg)      == ~Degenerate(cfg) /\ ~ColdBelowOne(cfg) /\ ~NeverCold(cfg) /\ ~LongWindow(cfg)
 =============================================================================
